@@ -9,6 +9,7 @@ import (
 	"github.com/libp2p/go-libp2p/core/peer"
 
 	"github.com/ipfs/go-graphsync"
+	gsimpl "github.com/ipfs/go-graphsync/impl"
 	gsmsg "github.com/ipfs/go-graphsync/message"
 )
 
@@ -25,6 +26,13 @@ type c10 struct {
 	// before the first peer's request with the same ID arrives
 	early   bool
 	refuseT bool
+	// a responder with a single worker kept busy by an earlier request of the first peer:
+	// whatever either peer sends next waits in the task queue
+	busy        *Req
+	busyDag     *DAG
+	staleTask   bool // coherent variant: the other peer queues and cancels a request under the ID before the first peer uses it
+	unpausedAt  int  // step at which the responder's operator resumed the first peer's response (0 = not yet)
+	pausedAtMsg int
 }
 
 func newC10() Scenario { return &c10{c02: c02{prop: "C10"}} }
@@ -42,15 +50,32 @@ func (s *c10) Build(w *World) {
 	}
 	cfg := NodeCfg{GateReads: true, GateCommits: true}
 	s.a = NewNode(w, "A", cfg)
-	s.b = NewNode(w, "B", cfg)
+	bcfg := cfg
+	oneWorker := t.Chance(300)
+	if oneWorker {
+		bcfg.Opts = append(bcfg.Opts, gsimpl.MaxInProgressIncomingRequests(1))
+	}
+	s.b = NewNode(w, "B", bcfg)
 	populate(s.b, s.dag, s.split.Rs)
 	s.t = NewScripted(w, "T")
+	if oneWorker {
+		s.busyDag = GenDAG(t, GenCfg{MaxBlocks: 4 + t.Draw(6), MaxDepth: 2, BlockPad: 21})
+		for _, c := range s.busyDag.Order {
+			s.b.Store.Put(c, s.busyDag.Blocks[c])
+		}
+		s.busy = s.a.NewReq("r0", s.b, s.busyDag.Root, AllSelector(6))
+		w.Prof.Weights["load"] = 1 // loads are slow: the worker stays busy
+	}
 	s.req = s.a.NewReq("r1", s.b, s.dag.Root, s.sel)
 	s.pause = t.Chance(300)
+	if oneWorker && t.Chance(500) {
+		s.staleTask = true
+		s.pause = true
+	}
 	if s.pause {
 		at := int64(1 + t.Draw(4))
 		s.b.OnOutgoingBlock = func(p peer.ID, r graphsync.RequestData, b graphsync.BlockData, a graphsync.OutgoingBlockHookActions) {
-			if w.Net.Name(p) == "A" && b.Index() == at && !s.paused {
+			if w.Net.Name(p) == "A" && r.ID() == s.req.ID && b.Index() == at && !s.paused {
 				s.paused = true
 				a.PauseResponse()
 			}
@@ -60,8 +85,8 @@ func (s *c10) Build(w *World) {
 	s.b.OnRequestUpdated = func(p peer.ID, r graphsync.RequestData, u graphsync.RequestData, a graphsync.RequestUpdatedHookActions) {
 		a.SendExtensionData(graphsync.ExtensionData{Name: "sim/update-seen", Data: basicnode.NewString("u")})
 	}
-	s.early = t.Chance(300)
-	s.refuseT = t.Chance(500)
+	s.early = t.Chance(300) || s.staleTask
+	s.refuseT = t.Chance(500) && !s.staleTask
 	if s.refuseT {
 		s.b.OnIncomingRequest = func(p peer.ID, r graphsync.RequestData, a graphsync.IncomingRequestHookActions) {
 			if w.Net.Name(p) == "T" {
@@ -73,6 +98,23 @@ func (s *c10) Build(w *World) {
 	// the quantifier is over request IDs in use by the first peer's responses:
 	// the second peer starts once the responder has the first peer's request
 	s.script.Ready = func(int) bool {
+		if s.busy != nil {
+			// the single worker must be occupied by the earlier request first
+			running := false
+			s.b.mu.Lock()
+			for _, h := range s.b.Processing {
+				if h.Req == s.busy.ID && h.Kind == "in-processing" {
+					running = true
+				}
+			}
+			s.b.mu.Unlock()
+			if s.staleTask {
+				return running && !s.busy.Done()
+			}
+			if !running && !s.busy.Done() {
+				return false
+			}
+		}
 		if s.early {
 			return true
 		}
@@ -86,9 +128,16 @@ func (s *c10) Build(w *World) {
 		return false
 	}
 	n := 1 + t.Draw(4)
+	if s.staleTask {
+		n = 2
+	}
 	for i := 0; i < n; i++ {
 		var rq gsmsg.GraphSyncRequest
-		switch k := t.Draw(3); k {
+		k := t.Draw(3)
+		if s.staleTask {
+			k = []int{2, 0}[i] // new, then cancel
+		}
+		switch k {
 		case 0:
 			rq = gsmsg.NewCancelRequest(s.req.ID)
 			s.kinds = append(s.kinds, "cancel")
@@ -104,7 +153,22 @@ func (s *c10) Build(w *World) {
 		s.script.Add(func() { s.t.Send(s.b.ID, m) })
 	}
 	w.AddProvider(func() []*Event {
+		if s.busy != nil && !s.busy.Issued {
+			return []*Event{s.busy.IssueEvent()}
+		}
 		if !s.req.Issued {
+			if s.staleTask {
+				// the first peer comes after the other peer's request and cancel have reached the responder
+				delivered := 0
+				for _, wm := range w.Net.WireFor("T", "B") {
+					if wm.Delivered != 0 {
+						delivered++
+					}
+				}
+				if !s.script.Done() || delivered < 2 {
+					return nil
+				}
+			}
 			return []*Event{s.req.IssueEvent()}
 		}
 		return nil
@@ -112,11 +176,11 @@ func (s *c10) Build(w *World) {
 }
 
 func (s *c10) Describe(w *World) string {
-	return fmt.Sprintf("%s pause=%v intruder=%v early=%v refuseT=%v", s.c02.Describe(w), s.pause, s.kinds, s.early, s.refuseT)
+	return fmt.Sprintf("%s pause=%v intruder=%v early=%v refuseT=%v stale=%v", s.c02.Describe(w), s.pause, s.kinds, s.early, s.refuseT, s.staleTask)
 }
 
 func (s *c10) Done(w *World) bool {
-	return s.req.Done() && s.script.Done() && w.Quiet()
+	return s.req.Done() && (s.busy == nil || s.busy.Done()) && s.script.Done() && w.Quiet()
 }
 
 func (s *c10) Heal(w *World) { w.Net.Heal() }
@@ -127,6 +191,7 @@ func (s *c10) NextPhase(w *World, phase int) bool {
 	if phase > 1 || !s.pause || s.req.Done() {
 		return false
 	}
+	s.unpausedAt = w.Step
 	w.Sync(func() { _ = s.b.GS.Unpause(w.T.Context(), s.req.ID) })
 	return true
 }
@@ -203,8 +268,76 @@ func (s *c10) Final(w *World) *Violation {
 	if nUpd > 0 {
 		return &Violation{Property: "C10", Rule: "R1", Signature: "update-from-other-peer-processed", Detail: fmt.Sprintf("the request-updated hook ran %d time(s) for the response served to A; only the other peer sent updates", nUpd)}
 	}
+	// R1c: nothing runs on behalf of a request of the other peer that has been retired
+	// (it would be running against whoever holds the ID now)
+	for _, h := range s.b.OutBlocks {
+		if h.Req != s.req.ID || h.Peer != "T" {
+			continue
+		}
+		// only while the first peer's response holds the ID
+		aFrom, aTo := -1, 1<<30
+		for _, in := range s.b.Incoming {
+			if in.Req == s.req.ID && in.Peer == "A" && aFrom < 0 {
+				aFrom = in.Step
+			}
+		}
+		for _, l := range [][]RespEvent{s.b.Completed, s.b.Cancelled, s.b.NetErrs} {
+			for _, e := range l {
+				if e.Req == s.req.ID && e.Peer == "A" && e.Step < aTo {
+					aTo = e.Step
+				}
+			}
+		}
+		if aFrom < 0 || h.Step < aFrom || h.Step > aTo {
+			continue
+		}
+		t0 := -1
+		for _, in := range s.b.Incoming {
+			if in.Req == s.req.ID && in.Peer == "T" && in.Step <= h.Step && in.Step > t0 {
+				t0 = in.Step
+			}
+		}
+		for _, l := range [][]RespEvent{s.b.Completed, s.b.Cancelled, s.b.NetErrs} {
+			for _, e := range l {
+				if e.Req == s.req.ID && e.Peer == "T" && e.Step > t0 && e.Step < h.Step {
+					sig := "traversal-on-behalf-of-retired-request"
+					if s.otherPeerResentID() {
+						sig = "other-peer-resent-id-in-use:" + sig
+					}
+					return &Violation{Property: "C10", Rule: "R1", Signature: sig, Detail: fmt.Sprintf("outgoing block hook called for peer T (block #%d, step %d) although T's request under the ID was retired at step %d and T sent no new one: the traversal runs against the response that holds the ID now", h.Index, h.Step, e.Step)}
+				}
+			}
+		}
+	}
+	// R1b: a response paused for the first peer stays paused until the responder's operator resumes it
+	if s.paused {
+		pausedMsg := -1
+		for mi, wm := range w.Net.WireFor("B", "A") {
+			if wm.Err != nil {
+				continue
+			}
+			for _, r := range wm.Msg.Responses() {
+				if r.RequestID() != s.req.ID {
+					continue
+				}
+				if pausedMsg >= 0 && mi > pausedMsg && (s.unpausedAt == 0 || wm.Step < s.unpausedAt) && len(ResponseMetadata(r)) > 0 {
+					return &Violation{Property: "C10", Rule: "R1", Signature: "paused-response-carried-on", Detail: fmt.Sprintf("the response to A was paused (message %d) and nobody entitled resumed it, yet message %d (step %d) carries %d more links of it", pausedMsg, mi, wm.Step, len(ResponseMetadata(r)))}
+				}
+				if r.Status() == graphsync.RequestPaused && pausedMsg < 0 {
+					pausedMsg = mi
+				}
+			}
+		}
+	}
 	// R1: what A got is exactly the reference
-	if v := checkSingle("C10", s.req, s.dag, s.sel, s.split, s.a.Store.Snapshot()); v != nil {
+	snap := s.a.Store.Snapshot()
+	if s.busyDag != nil {
+		// (the earlier request's blocks are its own; the two DAGs share none)
+		for c := range s.busyDag.Blocks {
+			delete(snap, c)
+		}
+	}
+	if v := checkSingle("C10", s.req, s.dag, s.sel, s.split, snap); v != nil {
 		v.Rule = "R1"
 		v.Signature = "response-to-first-peer-changed:" + v.Signature
 		if s.otherPeerResentID() {
